@@ -9,6 +9,9 @@ pub const LOG_CAP: usize = 96;
 pub static mut LOG_FMT: [&str; LOG_CAP] = [""; LOG_CAP];
 pub static mut LOG_ARGS: [u64; 12 * LOG_CAP] = [0; 12 * LOG_CAP];
 pub static mut LOG_NARGS: [usize; LOG_CAP] = [0; LOG_CAP];
+/// 1 = a memory byte "{:02X}\t", 2 = line break, 3 = column gap, 0 = anything else (classified when logged,
+/// where the literal is concrete, so that harnesses need no string comparison over the log)
+pub static mut LOG_KIND: [u8; LOG_CAP] = [0; LOG_CAP];
 pub static mut LOG_LEN: usize = 0;
 pub static mut LOG_OVERFLOW: bool = false;
 
@@ -27,6 +30,9 @@ pub fn log_fmt(i: usize) -> &'static str {
 pub fn log_arg(i: usize, k: usize) -> u64 {
     unsafe { LOG_ARGS[i * 12 + k] }
 }
+pub fn log_kind(i: usize) -> u8 {
+    unsafe { LOG_KIND[i] }
+}
 pub fn log_nargs(i: usize) -> usize {
     unsafe { LOG_NARGS[i] }
 }
@@ -41,6 +47,7 @@ pub fn log_event(fmt: &'static str, args: &[u64]) {
             return;
         }
         LOG_FMT[LOG_LEN] = fmt;
+        LOG_KIND[LOG_LEN] = if fmt.as_bytes() == "{:02X}\t".as_bytes() { 1 } else if fmt.as_bytes() == "\n".as_bytes() { 2 } else if fmt.as_bytes() == "\t".as_bytes() { 3 } else { 0 };
         let mut k = 0;
         while k < args.len() && k < 12 {
             LOG_ARGS[LOG_LEN * 12 + k] = args[k];
